@@ -20,6 +20,7 @@ type condValue struct {
 var condTable = []condValue{
 	{model.Bool(false), false}, {model.Nil, false}, {model.Int(0), false}, {model.Float(0), false}, {model.Str(""), false},
 	{model.Bool(true), true}, {model.Int(1), true}, {model.Int(-1), true}, {model.Float(0.5), true}, {model.Str(" "), true},
+	{model.Float(1e-10), true}, {model.Float(-1e-300), true}, {model.Float(5e-324), true}, {model.Int(-9223372036854775807 - 1), true},
 	{model.Str("0"), true}, {model.Arr(), true}, {model.Obj(nil), true}, {model.Arr(model.Int(0)), true}, {model.Float(-0.25), true},
 }
 
